@@ -191,6 +191,7 @@ func runProp(spec *PropSpec, tier, mutant string, noMut bool) (code int) {
 		runRound19(c, spec)
 		runRound20(c, spec)
 		runRound21(c, spec)
+		runRound22(c, spec)
 		if c.Whole && spec.Thorough != nil {
 			spec.Thorough(c)
 		}
